@@ -34,10 +34,14 @@ func TestVerifKeysS3(t *testing.T) {
 	n := 0
 	for sc.Scan() {
 		var l struct {
-			Segs []string `json:"segs"`
+			Counts []int32  `json:"counts"`
+			Segs   []string `json:"segs"`
 		}
 		if err := json.Unmarshal(sc.Bytes(), &l); err != nil {
 			t.Fatal(err)
+		}
+		if l.Counts != nil {
+			continue
 		}
 		name := strings.Join(l.Segs, "/")
 		s3, pre, cache := []string{}, []string{}, []string{}
